@@ -388,7 +388,7 @@ def jobs(tier):
     for t in range(len(TOPS)):
         for h in range(len(HREFS)):
             for a in ASPECTS:
-                out.append(('harness.c19', 'run_flatten', dict(depth=1, top=t, href0=h, aspect=a, limit=2 if tier == 'quick' else 4)))
+                out.append(('harness.c19', 'run_flatten', dict(depth=1, top=t, href0=h, aspect=a, limit=2 if tier == 'quick' else 3)))
                 out.append(('harness.c19', 'run_flatten', dict(depth=2, top=t, href0=h, aspect=a, limit=1 if tier == 'quick' else 2)))
     return out
 
@@ -405,7 +405,7 @@ def main(tier):
                           'Unicode (reduced alphabet)' % (len(POSITIONS), '1' if tier == 'quick' else '<= 2'),
                   'flatten': 'import trees of depth <= 2 (two imports in the top sheet, one below) over tops %r, href forms %r, media '
                              '%r, target kinds %r, url forms %r; top sheet and first edge in full, of the other choices at most %s (depth 1) / %s (depth 2) '
-                             'differ from the first menu entry' % (TOPS, HREFS, MEDIA, KINDS, URLS, 2 if tier == 'quick' else 4, 1 if tier == 'quick' else 2)}
+                             'differ from the first menu entry' % (TOPS, HREFS, MEDIA, KINDS, URLS, 2 if tier == 'quick' else 3, 1 if tier == 'quick' else 2)}
     rep.assumptions = ['urllib.parse.urljoin is the resolving oracle', 'flatten jobs are finite-choice (solver-driven enumeration)',
                        'the url jobs quantify the hole characters with the solver']
     rep.outside = ['csscombine (script wrapper): covered for its state handling by C12 only', 'minified output and target encodings',
